@@ -8,7 +8,8 @@ use serde_json::{json, Value};
 
 pub fn auth_small(f: Family, level: u8) -> Vec<Option<Vec<u8>>> {
 	// "h" / "%68": two spellings of one authority under ==
-	let mut v: Vec<Option<&str>> = vec![None, Some(""), Some("h"), Some("%68"), Some("u@h:1"), Some("[::1]")];
+	// "h:": an authority that ENDS with ':' (empty port)
+	let mut v: Vec<Option<&str>> = vec![None, Some(""), Some("h"), Some("%68"), Some("u@h:1"), Some("[::1]"), Some("h:")];
 	if level >= 1 {
 		v.extend([Some("u:p@[v1.a:b]:065535"), Some("a.b:"), Some("@")]);
 	}
@@ -25,6 +26,7 @@ pub fn long(c: u8, n: usize) -> Vec<u8> {
 pub fn tails_q(f: Family, level: u8) -> Vec<Option<Vec<u8>>> {
 	let mut v = domains::query_options(f, 1);
 	v.push(Some(domains::b("/?:@")));
+	v.push(Some(domains::b("//x")));
 	v.push(Some(long(b'q', 40)));
 	if level >= 1 {
 		v.push(Some(long(b'Q', 600)));
@@ -35,6 +37,7 @@ pub fn tails_q(f: Family, level: u8) -> Vec<Option<Vec<u8>>> {
 pub fn tails_f(f: Family, level: u8) -> Vec<Option<Vec<u8>>> {
 	let mut v = domains::fragment_options(f, 1);
 	v.push(Some(domains::b("?/:@[")));
+	v.push(Some(domains::b("//x")));
 	if level >= 1 {
 		v.push(Some(long(b'f', 40)));
 		v.push(Some(long(b'F', 600)));
